@@ -103,6 +103,20 @@ unsafe fn sim_path(p: *const c_char) -> Option<String> {
     simfs::normalise(s)
 }
 
+/// A path relative to a simulated directory descriptor.
+unsafe fn sim_path_at(dirfd: c_int, p: *const c_char) -> Option<String> {
+    if !fake(dirfd) || p.is_null() {
+        return None;
+    }
+    let b = CStr::from_ptr(p).to_bytes();
+    if b.first() == Some(&b'/') {
+        return None;
+    }
+    let rel = std::str::from_utf8(b).ok()?;
+    let base = with_world(|w| w.fs.path_of_fd(dirfd)).ok()?;
+    simfs::normalise(&format!("{}/{}", base, rel))
+}
+
 #[inline]
 fn fake(fd: c_int) -> bool {
     fd >= simfs::FAKE_FD_BASE
@@ -227,6 +241,9 @@ pub unsafe extern "C" fn open64(path: *const c_char, flags: c_int, mode: mode_t)
 unsafe fn do_openat(name: &'static str, dirfd: c_int, path: *const c_char, flags: c_int, mode: mode_t) -> c_int {
     if in_sim() {
         if let Some(p) = sim_path(path) {
+            return ret_i(with_world(|w| w.fs.open(&p, flags, mode)));
+        }
+        if let Some(p) = sim_path_at(dirfd, path) {
             return ret_i(with_world(|w| w.fs.open(&p, flags, mode)));
         }
         if fake(dirfd) {
@@ -540,6 +557,18 @@ pub unsafe extern "C" fn statx(dirfd: c_int, path: *const c_char, flags: c_int, 
                     }
                 };
             }
+            if let Some(p) = sim_path_at(dirfd, path) {
+                return match with_world(|w| w.fs.stat(&p)) {
+                    Ok(s) => {
+                        fill_statx(buf, &s);
+                        0
+                    }
+                    Err(e) => {
+                        set_errno(e);
+                        -1
+                    }
+                };
+            }
             return unmodelled("statx(relative to simulated dirfd)");
         }
     }
@@ -632,6 +661,18 @@ macro_rules! fstatat_fn {
                     let empty = path.is_null() || *path == 0;
                     if empty && flags & libc::AT_EMPTY_PATH != 0 {
                         return fstat64(dirfd, buf);
+                    }
+                    if let Some(p) = sim_path_at(dirfd, path) {
+                        return match with_world(|w| w.fs.stat(&p)) {
+                            Ok(s) => {
+                                fill_stat64(buf, &s);
+                                0
+                            }
+                            Err(e) => {
+                                set_errno(e);
+                                -1
+                            }
+                        };
                     }
                     return unmodelled("fstatat(relative to simulated dirfd)");
                 }
@@ -751,6 +792,13 @@ pub unsafe extern "C" fn unlink(path: *const c_char) -> c_int {
 pub unsafe extern "C" fn unlinkat(dirfd: c_int, path: *const c_char, flags: c_int) -> c_int {
     if in_sim() {
         if let Some(p) = sim_path(path) {
+            return if flags & libc::AT_REMOVEDIR != 0 {
+                ret_unit(with_world(|w| w.fs.rmdir(&p)))
+            } else {
+                ret_unit(with_world(|w| w.fs.unlink(&p)))
+            };
+        }
+        if let Some(p) = sim_path_at(dirfd, path) {
             return if flags & libc::AT_REMOVEDIR != 0 {
                 ret_unit(with_world(|w| w.fs.rmdir(&p)))
             } else {
@@ -980,13 +1028,56 @@ pub unsafe extern "C" fn dup(fd: c_int) -> c_int {
     }
 }
 
-/// Directory listing of simulated directories is not modelled: fail closed and
-/// leave a note the harness turns into a HARNESS-ERROR.
+/// Directory listing of simulated directories: opendir hands out a pointer to a SimDir (never
+/// dereferenced by libc), readdir64 walks a snapshot of the children taken at opendir time, in
+/// name order (a real file system promises no order; name order is one legal choice).
+#[repr(C)]
+struct SimDir {
+    magic: u64,
+    fd: c_int,
+    pos: usize,
+    entries: Vec<(String, bool, u64)>,
+    ent: libc::dirent64,
+}
+const SIMDIR_MAGIC: u64 = 0x5349_4D44_4952_2121;
+
+static SIMDIRS: std::sync::Mutex<Vec<usize>> = std::sync::Mutex::new(Vec::new());
+
+unsafe fn as_simdir(d: *mut libc::DIR) -> Option<*mut SimDir> {
+    if d.is_null() {
+        return None;
+    }
+    let known = SIMDIRS.lock().map(|v| v.contains(&(d as usize))).unwrap_or(false);
+    if known && (*(d as *mut SimDir)).magic == SIMDIR_MAGIC {
+        Some(d as *mut SimDir)
+    } else {
+        None
+    }
+}
+
+unsafe fn open_simdir(p: &str) -> *mut libc::DIR {
+    let fd = match with_world(|w| w.fs.open(p, libc::O_RDONLY | libc::O_DIRECTORY, 0)) {
+        Ok(fd) => fd,
+        Err(e) => {
+            set_errno(e);
+            return std::ptr::null_mut();
+        }
+    };
+    let entries = with_world(|w| w.fs.disk.children(p));
+    let b = Box::new(SimDir { magic: SIMDIR_MAGIC, fd, pos: 0, entries, ent: std::mem::zeroed() });
+    let ptr = Box::into_raw(b);
+    if let Ok(mut v) = SIMDIRS.lock() {
+        v.push(ptr as usize);
+    }
+    ptr as *mut libc::DIR
+}
+
 #[no_mangle]
 pub unsafe extern "C" fn opendir(path: *const c_char) -> *mut libc::DIR {
-    if in_sim() && sim_path(path).is_some() {
-        unmodelled("opendir on simulated path");
-        return std::ptr::null_mut();
+    if in_sim() {
+        if let Some(p) = sim_path(path) {
+            return open_simdir(&p);
+        }
     }
     match real!("opendir", unsafe extern "C" fn(*const c_char) -> *mut libc::DIR) {
         Some(f) => f(path),
@@ -1000,14 +1091,105 @@ pub unsafe extern "C" fn opendir(path: *const c_char) -> *mut libc::DIR {
 #[no_mangle]
 pub unsafe extern "C" fn fdopendir(fd: c_int) -> *mut libc::DIR {
     if in_sim() && fake(fd) {
-        unmodelled("fdopendir on simulated descriptor");
-        return std::ptr::null_mut();
+        return match with_world(|w| w.fs.path_of_fd(fd)) {
+            Ok(p) => {
+                // the stream adopts the descriptor it was given (callers keep using it for *at calls)
+                let entries = with_world(|w| w.fs.disk.children(&p));
+                let b = Box::new(SimDir { magic: SIMDIR_MAGIC, fd, pos: 0, entries, ent: std::mem::zeroed() });
+                let ptr = Box::into_raw(b);
+                if let Ok(mut v) = SIMDIRS.lock() {
+                    v.push(ptr as usize);
+                }
+                ptr as *mut libc::DIR
+            }
+            Err(e) => {
+                set_errno(e);
+                std::ptr::null_mut()
+            }
+        };
     }
     match real!("fdopendir", unsafe extern "C" fn(c_int) -> *mut libc::DIR) {
         Some(f) => f(fd),
         None => {
             set_errno(libc::ENOSYS);
             std::ptr::null_mut()
+        }
+    }
+}
+
+unsafe fn simdir_next(sd: *mut SimDir) -> *mut libc::dirent64 {
+    let d = &mut *sd;
+    if d.pos >= d.entries.len() {
+        return std::ptr::null_mut();
+    }
+    let (name, is_dir, ino) = d.entries[d.pos].clone();
+    d.pos += 1;
+    d.ent = std::mem::zeroed();
+    d.ent.d_ino = ino;
+    d.ent.d_off = d.pos as i64;
+    d.ent.d_reclen = std::mem::size_of::<libc::dirent64>() as u16;
+    d.ent.d_type = if is_dir { libc::DT_DIR } else { libc::DT_REG };
+    let bytes = name.as_bytes();
+    let n = bytes.len().min(d.ent.d_name.len() - 1);
+    for (i, b) in bytes[..n].iter().enumerate() {
+        d.ent.d_name[i] = *b as c_char;
+    }
+    d.ent.d_name[n] = 0;
+    &mut d.ent
+}
+
+#[no_mangle]
+pub unsafe extern "C" fn readdir64(dirp: *mut libc::DIR) -> *mut libc::dirent64 {
+    if let Some(sd) = as_simdir(dirp) {
+        return simdir_next(sd);
+    }
+    match real!("readdir64", unsafe extern "C" fn(*mut libc::DIR) -> *mut libc::dirent64) {
+        Some(f) => f(dirp),
+        None => std::ptr::null_mut(),
+    }
+}
+
+#[no_mangle]
+pub unsafe extern "C" fn readdir(dirp: *mut libc::DIR) -> *mut libc::dirent {
+    if let Some(sd) = as_simdir(dirp) {
+        // dirent and dirent64 have the same layout on x86-64 Linux
+        return simdir_next(sd) as *mut libc::dirent;
+    }
+    match real!("readdir", unsafe extern "C" fn(*mut libc::DIR) -> *mut libc::dirent) {
+        Some(f) => f(dirp),
+        None => std::ptr::null_mut(),
+    }
+}
+
+#[no_mangle]
+pub unsafe extern "C" fn dirfd(dirp: *mut libc::DIR) -> c_int {
+    if let Some(sd) = as_simdir(dirp) {
+        return (*sd).fd;
+    }
+    match real!("dirfd", unsafe extern "C" fn(*mut libc::DIR) -> c_int) {
+        Some(f) => f(dirp),
+        None => {
+            set_errno(libc::ENOSYS);
+            -1
+        }
+    }
+}
+
+#[no_mangle]
+pub unsafe extern "C" fn closedir(dirp: *mut libc::DIR) -> c_int {
+    if let Some(sd) = as_simdir(dirp) {
+        if let Ok(mut v) = SIMDIRS.lock() {
+            v.retain(|p| *p != dirp as usize);
+        }
+        let b = Box::from_raw(sd);
+        let _ = with_world(|w| w.fs.close(b.fd));
+        return 0;
+    }
+    match real!("closedir", unsafe extern "C" fn(*mut libc::DIR) -> c_int) {
+        Some(f) => f(dirp),
+        None => {
+            set_errno(libc::ENOSYS);
+            -1
         }
     }
 }
